@@ -277,7 +277,7 @@ NOT_APPLICABLE = {f"C{i:02d}": _PENDING for i in range(1, 21) if f"C{i:02d}" not
 # Statement files added after the first full pass (each integrated in _CoqProject; all theorems closed under the global context)
 EXTRA_NOTES = {
     "C02": " Props/C02CachesFaults.v (pipe_refines_single_caches_strong): with caches, at EVERY fault (cache rejection included) registers, output and the whole "
-           "memory system (directory, counters) agree. Props/C02FaultTrace.v (flat memory, no instruction cache): at a fault the pipeline has retired every executed instruction (icount + 1 = single-cycle icount) and its retire "
+           "memory system (directory, counters) agree. Props/C02FaultTrace.v and Props/C02FaultTraceCaches.v (every cache configuration): at a fault the pipeline has retired every executed instruction (icount + 1 = single-cycle icount) and its retire "
            "trace is the single-cycle trace, minus its last element exactly when the faulting load/store is back-to-back behind its predecessor.",
     "C04": " Props/C04Spelling.v: at LOAD level — rv_load_text gives the same state, error (incl. line) and image for texts that differ only in register spelling (ABI/xN, s0/fp), "
            "number base/sign spelling, mnemonic case, layout and comments (rv_load_text_spelling_independent and four readable corollaries; the one place where spelling matters is "
@@ -293,7 +293,7 @@ EXTRA_NOTES = {
            "the flag-off pipeline on pad2 P yields the single-cycle results of P (pad2_flagoff_equals_original; flat memory, no instruction cache); witnesses show why jalr / auipc / link-as-data are excluded. "
            "Props/C08Caches.v (lifts flagoff_lockstep / flagoff_refines_single / flagoff_is_dwb — not the padding theorems): the same with any data / instruction cache (flagoff_lockstep_caches, flagoff_refines_single_caches, flagoff_is_dwb_caches). "
            "Props/C08SchedFull.v: flagoff_schedule — retire cycles with the flag off follow the hazard-free recurrence for ALL supported programs incl. ecall.",
-    "C07": " Props/C07RetireCyclesCaches.v: with caches, the cycle counter at each retirement = start + W_k + penalties x misses so far. Props/C07SchedPrefix.v (flat memory, no instruction cache): the schedule holds as a PREFIX law for every number of cycles, also for non-terminating and faulting programs, "
+    "C07": " Props/C07RetireCyclesCaches.v: with caches, the cycle counter at each retirement = start + W_k + penalties x misses so far. Props/C07SchedPrefix.v and Props/C07SchedPrefixCaches.v (every cache configuration, cache rejections included): the schedule holds as a PREFIX law for every number of cycles, also for non-terminating and faulting programs, "
            "and the cycle in which a fault is raised is the faulting instruction's EX (ecall) / MEM (load, store) cycle of the recurrence. "
            "Props/C07Events.v: the events of the recurrence (sources, destination) equal those of an independent ISA register table (Spec/IsaRegs.v) "
            "for every non-CSR instruction; for CSR instructions (outside the property: unsupported) the model's decode names no register (events_from_isa_csr_refuted).",
